@@ -105,6 +105,13 @@ CHECKS = {
         "trusted: the model's encoding of Snowflake metadata semantics (CTAS/RENAME keep VARCHAR lengths, DROP forgets comments); not demanded: created_on/owner columns, INFORMATION_SCHEMA's own rows, FLOAT precision, comment of a CLONE",
         "explicit-state model checking (depth-bounded BFS with ground-truth state dedupe) against a catalog metadata reference model",
     ),
+    "C06": (
+        "E1-bfs",
+        "model_checking",
+        "state = (statement, fetch position); for every statement of a written-out alphabet (466 hand-written statements of every kind + the product column type x 21 expression forms) seven traces are executed (control, description read before / mid / after the fetch sequence, mid-fetch on a DictCursor, cursor reuse, describe() on a fresh cursor); description/describe are checked to be self-loops on the state (pending rows, raw-DuckDB digest and session unchanged) and their content is compared with the fetched Python values, the DictCursor keys and the declared column types",
+        "trusted: the type model mc/ref/c06_model.py (selftested); not demanded: is_nullable, internal_size, names of unaliased expressions, precision of REAL/TIME",
+        "explicit enumeration of (statement x read point) states with self-loop checks, i.e. bounded exhaustive exploration of the real cursor against a type reference model",
+    ),
 }
 
 NOT_BUILT = "check not built yet in this round (planned per DESIGN.md §3); no claim is made"
